@@ -788,7 +788,7 @@ class Obs:
         else:
             if isinstance(y, np.ndarray):
                 return np.array([self + o for o in y])
-            elif isinstance(y, complex):
+            elif isinstance(y, (complex, np.complexfloating)):
                 return CObs(self, 0) + y
             elif y.__class__.__name__ in ['Corr', 'CObs']:
                 return NotImplemented
@@ -804,7 +804,7 @@ class Obs:
         else:
             if isinstance(y, np.ndarray):
                 return np.array([self * o for o in y])
-            elif isinstance(y, complex):
+            elif isinstance(y, (complex, np.complexfloating)):
                 return CObs(self * y.real, self * y.imag)
             elif y.__class__.__name__ in ['Corr', 'CObs']:
                 return NotImplemented
@@ -820,7 +820,7 @@ class Obs:
         else:
             if isinstance(y, np.ndarray):
                 return np.array([self - o for o in y])
-            elif isinstance(y, complex):
+            elif isinstance(y, (complex, np.complexfloating)):
                 return CObs(self, 0) - y
             elif y.__class__.__name__ in ['Corr', 'CObs']:
                 return NotImplemented
@@ -842,7 +842,7 @@ class Obs:
         else:
             if isinstance(y, np.ndarray):
                 return np.array([self / o for o in y])
-            elif isinstance(y, complex):
+            elif isinstance(y, (complex, np.complexfloating)):
                 return CObs(self, 0) / y
             elif y.__class__.__name__ in ['Corr', 'CObs']:
                 return NotImplemented
@@ -855,7 +855,7 @@ class Obs:
         else:
             if isinstance(y, np.ndarray):
                 return np.array([o / self for o in y])
-            elif isinstance(y, complex):
+            elif isinstance(y, (complex, np.complexfloating)):
                 return y / CObs(self, 0)
             elif y.__class__.__name__ in ['Corr', 'CObs']:
                 return NotImplemented
@@ -865,7 +865,7 @@ class Obs:
     def __pow__(self, y):
         if isinstance(y, Obs):
             return derived_observable(lambda x, **kwargs: x[0] ** x[1], [self, y], man_grad=[y.value * self.value ** (y.value - 1), self.value ** y.value * np.log(self.value)])
-        elif isinstance(y, complex):
+        elif isinstance(y, (complex, np.complexfloating)):
             modulus = self ** y.real
             phase = y.imag * np.log(self)
             return CObs(modulus * np.cos(phase), modulus * np.sin(phase))
@@ -873,7 +873,7 @@ class Obs:
             return derived_observable(lambda x, **kwargs: x[0] ** y, [self], man_grad=[y * self.value ** (y - 1)])
 
     def __rpow__(self, y):
-        if isinstance(y, complex):
+        if isinstance(y, (complex, np.complexfloating)):
             modulus = np.abs(y) ** self
             phase = np.angle(y) * self
             return CObs(modulus * np.cos(phase), modulus * np.sin(phase))
